@@ -158,6 +158,11 @@ def judgeObs (a : Acc) (o : Json) : P Acc := do
       if reserved.contains n || shadows then
         a1 := a1.fail s!"advertised name '{String.ofList n}' shadows a public Vector/Table attribute"
     return a1
+  | "peek" =>
+    let got ← listF asStrChars o "attr"
+    if got != acc.map (fun n => '.' :: n) then
+      return a.fail "t.peek() advertises other accessors than dir(t): a repeated or unnamed column must be listed under the name it really answers to"
+    return a
   | "rowitem" =>
     let res ← listF (asPair asStrChars asObs) o "res"
     let non ← listF (asPair asStrChars asBool) o "non"
